@@ -308,11 +308,23 @@ impl<'tcx> Ex<'tcx> {
                     CastKind::Transmute => "transmute".to_string(),
                     other => format!("{:?}", other),
                 };
+                // closures / fn items / coroutines inside the source type (who is behind a `dyn Fn` / fn pointer)
+                let mut src_fns: Vec<String> = Vec::new();
+                for ga in op.ty(body, self.tcx).walk() {
+                    if let Some(t2) = ga.as_type() {
+                        match t2.kind() {
+                            ty::FnDef(d, _) | ty::Closure(d, _) | ty::Coroutine(d, _) | ty::CoroutineClosure(d, _) => src_fns.push(jstr(&self.path(*d))),
+                            _ => {}
+                        }
+                    }
+                }
                 format!(
-                    "{{\"k\":\"cast\",\"cast\":{},\"op\":{},\"ty\":{}}}",
+                    "{{\"k\":\"cast\",\"cast\":{},\"op\":{},\"ty\":{},\"src_ty\":{},\"src_fns\":{}}}",
                     jstr(&k),
                     self.operand(body, op, owner),
-                    jstr(&self.ty_s(*t))
+                    jstr(&self.ty_s(*t)),
+                    jstr(&self.ty_s(op.ty(body, self.tcx))),
+                    jlist(&src_fns)
                 )
             }
             Rvalue::BinaryOp(op, ab) => {
